@@ -676,7 +676,7 @@ theorem goodEntry_table (t : Bool) (excl : List Bytes)
     ∀ e ∈ stdFilterImpls, e.1 ∉ excl → goodEntry t e := by
   intro e he hn
   simp only [stdFilterImpls, List.mem_append] at he
-  rcases he with ((he | he) | he) | he
+  rcases he with (((he | he) | he) | he) | he
   · simp only [Num.impls, List.mem_cons, List.not_mem_nil, or_false] at he
     rcases he with rfl | rfl | rfl | rfl | rfl | rfl | rfl | rfl | rfl | rfl | rfl
     · exact goodEntry_of_scalar t (by decide +kernel) _
@@ -710,6 +710,10 @@ theorem goodEntry_table (t : Bool) (excl : List Bytes)
     · exact hjson hn
     · exact hinsp hn
     · exact htype hn
+  · -- `date`: a time receiver and a string default function, both scalar parameters
+    simp only [DateF.impls, List.mem_cons, List.not_mem_nil, or_false] at he
+    subst he
+    exact goodEntry_of_scalar t (by decide +kernel) _
 
 theorem goodEntry_std (t : Bool) : ∀ e ∈ stdFilterImpls, e.1 ∉ openFilters → goodEntry t e :=
   goodEntry_table t openFilters (fun h => absurd (by simp [openFilters]) h) (fun h => absurd (by simp [openFilters]) h)
